@@ -1,33 +1,56 @@
 """Static text for MANIFEST.json (per claimed property) and the not-applicable list."""
 
-_PROOF_NOTE = ("Trusted: z3/cvc5, CPython's ast module, the home-made VC generator (guarded by canary mutants + bounded differentials), "
+_PROOF_NOTE = ("Trusted: z3/cvc5, CPython's ast module, the home-made VC generators (guarded on every run by canary mutants of the extracted code, vacuity checks and bounded differentials), "
                "assumed contracts of stdlib/third-party callees (listed in evidence.trusted_base), float-as-real (A-real). "
-               "Bounded stand-ins are labelled and never counted as discharged.")
+               "Bounded stand-ins are labelled `bounded` and never counted as discharged.")
+_T = ("Template obligations are decided per constructor case by CPython's own parser on instantiated templates (deductive in structure: all paths of the real generator, induction hypothesis as callee contract; "
+      "sampled in the hole contents, with an all-strings z3 obligation on every raw quoting site). sly's LR driver and tokenize loop, pydantic validation and black are assumed contracts with bounded cross-checks.")
+
+
+def _e(engine, ref, technique, text, note=_PROOF_NOTE):
+    return {"engine": engine, "design_ref": ref, "technique": technique, "level_text": text, "level_note": note}
+
 
 INFO = {
-    "C16": {"engine": "pyvc", "design_ref": "DESIGN.md 4/C16",
-            "technique": "contract-based deductive verification: pyvc VCs from the real deterministic_choice body + lemmas over its contract, z3/cvc5",
-            "level_text": "full functional contract of deterministic_choice (membership, interval postcondition, exceptional postconditions, frame, delegation) proved for all arguments by z3 from VCs generated from the current source; equivalence lemmas proved over the contract",
-            "level_note": _PROOF_NOTE},
-    "C08": {"engine": "rxvc+pyvc", "design_ref": "DESIGN.md 4/C08",
-            "technique": "contract-based verification of the lexer tables: pick languages of the live master-regex tables vs the documented scanner as regular-language emptiness obligations (complete DFA procedure) + pyvc contracts on the token functions",
-            "level_text": "for ALL texts: every ignored rule consumes only whitespace or one complete line comment, whitespace is always covered, the block-comment state ends exactly at the first */ and never errors, comment callbacks emit no token; decided by a complete procedure on the tables dumped from the live classes",
-            "level_note": _PROOF_NOTE + " sly's tokenize loop is an assumed contract (bounded differential against the documented scanner is the labelled stand-in)."},
-    "C11": {"engine": "pyvc", "design_ref": "DESIGN.md 4/C11",
-            "technique": "contract-based deductive verification: representation invariant with ghost state on the real recompile/__init__/__call__ bodies, state-after-exception and frame obligations, z3",
-            "level_text": "every path of recompile / __init__ / __call__ / run_experiment / parse_source (incl. every exceptional path of every callee) is proved to preserve the invariant 'behaves like a fresh evaluator of the last accepted text', to leave the instance unchanged on any exception and to write only to its own instance; histories follow by induction (paper step); a bounded history exploration on the real class is the labelled stand-in",
-            "level_note": _PROOF_NOTE + " Pipeline stages (tokenize, parse, generate, compile, exec) are deterministic uninterpreted functions that may raise."},
-    "C18": {"engine": "pyvc", "design_ref": "DESIGN.md 4/C18",
-            "technique": "contract-based deductive verification: pyvc VCs from the real probit/confidence_interval bodies, nlsat lemmas over the contracts",
-            "level_text": "probit and confidence_interval verified against algebraic textbook contracts for all n>=1, p in [0,1], confidence in (0,1); symmetry by two-run obligations; monotonicity lemmas by z3 nlsat; the normal-quantile clause only by a bounded grid (labelled)",
-            "level_note": _PROOF_NOTE},
+    "C01": _e("pyvc+tmpl", "DESIGN.md 4/C01", "contract-based deductive verification: havoc-free result terms and frame obligations from pyvc VCs (z3), structural templates of the generator, effect scan",
+              "determinism = no nondeterminism source reaches any result term and no call writes state that a later call reads: proved per function (binning, recompile, __call__, parse_source ownership, generator set-order discipline, sly confinement scan); process independence rests on the assumed independence of the externals; cross-process transcripts are the labelled stand-in", _PROOF_NOTE + " " + _T),
+    "C02": _e("rxvc+pyvc+tmpl", "DESIGN.md 4/C02", "contract-based deductive verification along five links: regular-language obligations on the lexer tables, structural execution of the 43 grammar actions, pydantic model case analysis, generator templates vs D with CPython's parser as oracle",
+              "every link between source text and executed Python is under contract: token picks == documented scanner for all texts; production set, precedence and every action == attribute grammar; models keep values; every generator constructor case parses to D(node); exec semantics assumed", _PROOF_NOTE + " " + _T),
+    "C03": _e("pyvc+tmpl", "DESIGN.md 4/C03", "contract-based deductive verification: interval postcondition of deterministic_choice and range/grid postcondition of deterministic_proba (pyvc VCs, z3), lemmas over the contract, generator alignment obligation",
+              "for all weight vectors and hash positions (real arithmetic): the selected index is exactly the interval index; zero-weight groups are never selected; u in [0,1) on the 2^32 grid; population and weights are emitted position-aligned in declaration order", _PROOF_NOTE),
+    "C05": _e("rxvc+pyvc+tmpl", "DESIGN.md 4/C05", "contract-based deductive verification: token-function VCs (z3 strings), literal grammar actions, pydantic model case analysis on the real annotations, raw-quoting z3 obligations and literal oracle cases on the generator",
+              "value and type of every literal kind are preserved by each stage: lexeme -> token value -> action -> model field -> rendered Python literal (repr contract assumed); adversarial literal pools through the parse oracle", _PROOF_NOTE + " " + _T),
+    "C06": _e("rxvc+pyvc", "DESIGN.md 4/C06", "contract-based deductive verification: lexer error-equivalence (regular languages), error callbacks proved to raise on every path (pyvc), grammar table == G_ref without conflicts or error productions, recompile's None=>ParseError clause",
+              "a character that starts no token reaches error() exactly where the documented scanner rejects, both error callbacks raise on all paths so recovery is dead, the grammar is the documented one; LALR acceptance itself is assumed (bounded mutant differential)", _PROOF_NOTE),
+    "C07": _e("rxvc+pyvc+tmpl", "DESIGN.md 4/C07", "contract-based deductive verification: whole-word keyword obligations (rxvc), model totality, generator validity obligations (distinct parameters, tuple members in scope, both layouts parse) by structural induction with the parse oracle",
+              "every grammatical text lexes, every model constructor is total on grammar values, every generator constructor case yields valid Python for any nesting/chain length (induction over constructors); reserved-name identifiers are a recorded known finding whose exclusion set is itself an obligation", _PROOF_NOTE + " " + _T),
+    "C08": _e("rxvc+pyvc", "DESIGN.md 4/C08", "contract-based verification of the lexer tables: pick languages of the live master-regex tables vs the documented scanner as regular-language emptiness obligations (complete DFA procedure) + pyvc contracts on the token functions",
+              "for ALL texts: every ignored rule consumes only whitespace or one complete line comment, whitespace is always covered, the block-comment state ends exactly at the first */ and never errors, comment callbacks emit no token; decided by a complete procedure on the tables dumped from the live classes",
+              _PROOF_NOTE + " sly's tokenize loop is an assumed contract (bounded differential against the documented scanner is the labelled stand-in)."),
+    "C09": _e("tmpl+pyvc", "DESIGN.md 4/C09", "contract-based deductive verification: key / signature templates of the real generator vs D (parse oracle), __call__ forwarding contract (z3)",
+              "the key expression is exactly salt + str() of the sorted distinct splitters and mentions no other name; the signature ends in **kwargs with no defaults; the helper is called by keyword; the experiment id occurs only as the def name", _PROOF_NOTE + " " + _T),
+    "C10": _e("pyvc+tmpl", "DESIGN.md 4/C10", "contract-based deductive verification: position is a function of the key (contract of deterministic_proba), monotonicity lemma over the contract of deterministic_choice (z3 nonlinear), single key hole in the generator",
+              "for all pairs of weight vectors ordered by prefix shares and all positions: idx' <= idx; the position term contains neither weights nor labels nor the branch", _PROOF_NOTE),
+    "C11": _e("pyvc", "DESIGN.md 4/C11", "contract-based deductive verification: representation invariant with ghost state on the real recompile/__init__/__call__ bodies, state-after-exception and frame obligations, z3",
+              "every path of recompile / __init__ / __call__ / run_experiment / parse_source (incl. every exceptional path of every callee) preserves 'behaves like a fresh evaluator of the last accepted text', leaves the instance unchanged on any exception and writes only its own instance; histories follow by induction (paper step)",
+              _PROOF_NOTE + " Pipeline stages (tokenize, parse, generate, compile, exec) are deterministic uninterpreted functions that may raise."),
+    "C12": _e("pyvc+tmpl", "DESIGN.md 4/C12", "contract-based deductive verification: exact-formula postcondition of deterministic_proba (z3, uninterpreted MD5/UTF-8) + key template vs D",
+              "hash position == first 8 hex digits of md5(utf8(key)) / 2^32 for every str; key == salt then sorted distinct splitters via str(); identity of MD5 only by known answers (bounded)", _PROOF_NOTE + " " + _T),
+    "C13": _e("tmpl+pyvc", "DESIGN.md 4/C13", "contract-based deductive verification: single-token obligations at every interpolation site of the real generator (z3 strings / assumed repr contract), module == D(ast) up to constants (parse oracle)",
+              "every site where source-derived text enters the generated code is enumerated by structural execution and shown to produce one literal token for all contents; the rest of the module is fixed skeleton text", _PROOF_NOTE + " " + _T),
+    "C14": _e("tmpl+pyvc", "DESIGN.md 4/C14", "contract-based deductive verification: generate verified for both layouts against D.module (parse oracle), generate_code call-site contract (z3), pinned exec pipeline of recompile",
+              "both layouts parse to the same D up to helper placement, generate_code uses the evaluator's generator with the same arguments; experiment-id capture is a recorded known finding whose exclusion set is itself an obligation", _PROOF_NOTE + " " + _T),
+    "C15": _e("pyvc+tmpl", "DESIGN.md 4/C15", "contract-based deductive verification: no-exception clause of deterministic_proba for every str (z3), key template is str() of each splitter",
+              "no exceptional path exists in deterministic_proba for any well-formed str; keys of values that print identically are equal by congruence", _PROOF_NOTE),
+    "C16": _e("pyvc", "DESIGN.md 4/C16", "contract-based deductive verification: pyvc VCs from the real deterministic_choice body + lemmas over its contract, z3/cvc5",
+              "full functional contract of deterministic_choice (membership, interval postcondition, exceptional postconditions, frame, delegation) proved for all arguments from VCs generated from the current source; equivalence lemmas proved over the contract", _PROOF_NOTE),
+    "C17": _e("pyvc+effect-scan", "DESIGN.md 4/C17", "contract-based frame/ownership obligations (pyvc + syntactic effect scan); schedules are not explored",
+              "confinement only: objects handed to the engine are allocated in the call, no store on sly's run-time path targets class or module state, recompile publishes once after everything that can fail; thread safety follows by a paper argument under A-GIL; thread stress is a labelled bounded stand-in",
+              "Interleavings are not explored (contracts cannot carry schedules). Trusted: the syntactic effect scan, A-GIL."),
+    "C18": _e("pyvc", "DESIGN.md 4/C18", "contract-based deductive verification: pyvc VCs from the real probit/confidence_interval bodies, nlsat lemmas over the contracts",
+              "probit and confidence_interval verified against algebraic textbook contracts for all n>=1, p in [0,1], confidence in (0,1); symmetry by two-run obligations; monotonicity lemmas by z3 nlsat; the normal-quantile clause only by a bounded grid (labelled)", _PROOF_NOTE),
 }
 
 NOT_APPLICABLE = {
     "C04": "statistical statement about MD5's output distribution over id families: MD5 is an uninterpreted function in every contract, no pre/postcondition expresses equidistribution or independence; sampling belongs to a different technique family. Its structural preconditions (salt is a prefix of the hashed key, whole key hashed, exact interval map) are proved under C12/C03.",
 }
-for _p, _why in {"C01": "links not yet built (generator/evaluator)", "C02": "links not yet built", "C03": "generator alignment link not yet built",
-                 "C05": "links not yet built", "C06": "links not yet built", "C07": "links not yet built", 
-                 "C09": "generator link not yet built", "C10": "generator single-key link not yet built",                  "C12": "generator key link not yet built", "C13": "generator link not yet built", "C14": "generator link not yet built",
-                 "C15": "generator key link not yet built", "C17": "effect scan not yet built"}.items():
-    NOT_APPLICABLE.setdefault(_p, "not claimed yet (work in progress): " + _why)
